@@ -4,16 +4,22 @@
 // compiled only with the build tag `verif`.
 package nut11
 
+// ParseP2PKTags and PublicKeys are deterministic functions of the (immutable)
+// tag list: assumed, named tags.parse / nut11.keysof in the specs.
 //@ func ParseP2PKTags
 //@   tags C12 C13
 //@   safety C06 C12
+//@   assumes err == nil <==> tags.ok(tags)
+//@   assumes err == nil ==> *result == tags.parse(tags)
+//@   assumes err != nil ==> err == tags.err(tags)
 //@   ensures @nonnil err == nil ==> result != nil
 //@   ensures @errnil err != nil ==> result == nil
 //@   ensures @nsigs [C12] err == nil ==> result.NSigs >= 0 && result.NSigs <= 127
 //@   ensures @fewtags [C12] err == nil ==> len(tags) <= 5
-//@   loop range(tags) invariant p2pkTags.NSigs >= 0 && p2pkTags.NSigs <= 127
-//@   loop 2 invariant 1 <= i && j == i - 1 && len(pubkeys) == len(tag) - 1 && p2pkTags.NSigs >= 0 && p2pkTags.NSigs <= 127
-//@   loop 3 invariant 1 <= i && j == i - 1 && len(refundKeys) == len(tag) - 1 && p2pkTags.NSigs >= 0 && p2pkTags.NSigs <= 127
+//@   ensures @keysnonnil [C12,C13] err == nil ==> (forall k :: 0 <= k && k < len(result.Pubkeys) ==> result.Pubkeys[k] != nil) && (forall k :: 0 <= k && k < len(result.Refund) ==> result.Refund[k] != nil)
+//@   loop range(tags) invariant p2pkTags.NSigs >= 0 && p2pkTags.NSigs <= 127 && (forall k :: 0 <= k && k < len(p2pkTags.Pubkeys) ==> p2pkTags.Pubkeys[k] != nil) && (forall k :: 0 <= k && k < len(p2pkTags.Refund) ==> p2pkTags.Refund[k] != nil)
+//@   loop 2 invariant 1 <= i && j == i - 1 && len(pubkeys) == len(tag) - 1 && p2pkTags.NSigs >= 0 && p2pkTags.NSigs <= 127 && (forall k :: 0 <= k && k < j ==> pubkeys[k] != nil) && (forall k :: 0 <= k && k < len(p2pkTags.Pubkeys) ==> p2pkTags.Pubkeys[k] != nil) && (forall k :: 0 <= k && k < len(p2pkTags.Refund) ==> p2pkTags.Refund[k] != nil)
+//@   loop 3 invariant 1 <= i && j == i - 1 && len(refundKeys) == len(tag) - 1 && p2pkTags.NSigs >= 0 && p2pkTags.NSigs <= 127 && (forall k :: 0 <= k && k < j ==> refundKeys[k] != nil) && (forall k :: 0 <= k && k < len(p2pkTags.Pubkeys) ==> p2pkTags.Pubkeys[k] != nil) && (forall k :: 0 <= k && k < len(p2pkTags.Refund) ==> p2pkTags.Refund[k] != nil)
 
 //@ func ParsePublicKey
 //@   tags C12
@@ -59,20 +65,25 @@ package nut11
 //@ func HasValidSignatures
 //@   tags C12 C13
 //@   safety C06 C12
-//@   modifies hvs.last, hvs.calls
-//@   assumes hvs.last == result && hvs.calls == old(hvs.calls) + 1
+//@   modifies hvs.last, hvs.calls, hvs.fails
+//@   assumes hvs.last == result && hvs.calls == old(hvs.calls) + 1 && hvs.fails == old(hvs.fails) + (result ? 0 : 1)
 //@   loop range(signatures) invariant validSignatures >= 0 && len(pubkeysCopy) <= len(pubkeys) && validSignatures <= len(pubkeys) - len(pubkeysCopy)
 //@   ensures @bounded [C12,C13] result ==> Nsigs <= len(pubkeys) || Nsigs <= 0
 
 //@ func PublicKeys
 //@   tags C12
 //@   safety C06 C12
+//@   assumes err == nil <==> nut11.keysok(secret)
+//@   assumes err == nil ==> r0 == nut11.keysof(secret)
+//@   assumes err != nil ==> err == nut11.keyserr(secret)
 
 //@ macro expired(t) = t.Locktime > 0 && clk.now > t.Locktime
 
 //@ func VerifyP2PKLockedProof
 //@   tags C12
 //@   safety C06 C12
+//@   modifies hvs.last, hvs.calls, hvs.fails, clk.now
+//@   assumes r0 == p2pk.verdict(proof, proofSecret, clk.now)
 //@   calls HasValidSignatures asserts @handed [C12] bytes(hash) == sha256(bytesOf(proof.Secret)) && signatures == p2pkWitness.Signatures && ((expired(p2pkTags) && Nsigs == 1 && pubkeys == p2pkTags.Refund && len(p2pkTags.Refund) > 0) || (!expired(p2pkTags) && Nsigs >= 1 && Nsigs == (p2pkTags.NSigs > 0 ? p2pkTags.NSigs : 1) && len(pubkeys) == 1 + (p2pkTags.NSigs > 0 ? len(p2pkTags.Pubkeys) : 0) && pk.pt(*pubkeys[0]) == pt.parse(hexdec(proofSecret.Data.Data)) && (forall j :: 0 <= j && j < len(pubkeys) - 1 ==> pubkeys[1 + j] == p2pkTags.Pubkeys[j])))
 //@   ensures @accepts [C12] r0 == nil ==> (hvs.calls == old(hvs.calls) + 1 && hvs.last) || (hvs.calls == old(hvs.calls))
 //@   ensures @onecall [C12] hvs.calls <= old(hvs.calls) + 1
